@@ -30,6 +30,18 @@ func GenC01(seed uint64, i int) *world.Case {
 	r := gen.New(s)
 	cfg := gen.Config(r, "")
 	sp := gen.Spec(r, gen.SpecOpts{MaxOps: 2 + i%6, Chunk: cfg.Chunk, Tag: "a", Small: i%3 == 0})
+	if i%9 == 4 {
+		// One slice consumed by several operators of the same invocation: directly,
+		// through shuffles of different widths, combiners, partitioners and key prefixes.
+		sp = gen.FanOut(r, nil, "a", i/9)
+	}
+	if i%9 == 7 {
+		// A task reading one encoded stream of shrinking batches through an
+		// operator that pulls with destinations smaller than a batch.
+		cfg.Executor = "cluster"
+		cfg.Chunk = r.Pick(0, 16, 16, 32)
+		sp = gen.StreamConsumer(r, nil, "a", cfg.Chunk)
+	}
 	return runScanCase("C01", s, sp, cfg)
 }
 
@@ -52,7 +64,7 @@ func C01(tier string, seed uint64) int {
 	}
 	b := &Batch{
 		Property: "C01", Tier: tier, Seed: seed, Level: "exploration",
-		Rule: "seeded grammar-generated operator DAGs (sources const/readerfunc/scanreader; map/filter/flatmap/fold/head/reduce/cogroup/reshuffle/repartition/reshard/prefixed/scan/writerfunc) executed failure-free on the local or simulated-cluster executor under seeded virtual delays; distinct = distinct (ordered seam-event sequence, per-step result digest) pairs; non-trivial = the run executed at least one task",
+		Rule: "seeded grammar-generated operator DAGs (sources const/readerfunc/scanreader; map/filter/flatmap/fold/head/reduce/cogroup/reshuffle/repartition/reshard/prefixed/scan/writerfunc; every ninth program is a fan-out shape: one slice consumed directly and through shuffles of different widths, combiners, partitioners and key prefixes; every ninth is a stream-consumer shape: a cluster task reading one encoded stream of shrinking batches through Filter/Flatmap) executed failure-free on the local or simulated-cluster executor under seeded virtual delays; distinct = distinct (ordered seam-event sequence, per-step result digest) pairs; non-trivial = the run executed at least one task",
 		Gen: func(i int) *world.Case {
 			if i < len(smallSpecs) {
 				s := seedFor(seed, "C01-small", i)
